@@ -42,6 +42,7 @@ fn main() {
         ("alloc", "replay") => alloc::replay(&args[2..]),
         ("alloc", "record") => alloc::record(&args[2..]),
         ("alloc", "sizes") => alloc::sizes(&args[2..]),
+        ("alloc", "maxtime") => alloc::maxtime(&args[2..]),
         _ => {
             eprintln!("unknown suite/mode");
             std::process::exit(3);
